@@ -255,8 +255,10 @@ pub fn op_threads(state: &mut State, req: &J) -> J {
     }
   }
   let calls = Arc::new(calls);
-  // sequential reference pass by the SUT itself (the oracle compares, not the driver)
-  let sequential: Vec<J> = calls.iter().map(|(n, c)| vj(&me.evaluate_invocable(n, c))).collect();
+  // sequential reference pass by the SUT itself (the oracle compares, not the driver); with "cold": true it is made AFTER the
+  // concurrent run, so that in a fresh process the first use of every lazily initialised global happens under contention
+  let cold = req.get("cold").and_then(|b| b.as_bool()).unwrap_or(false);
+  let sequential: Vec<J> = if cold { vec![] } else { calls.iter().map(|(n, c)| vj(&me.evaluate_invocable(n, c))).collect() };
   let mut plans: Vec<Vec<(usize, u64, u64)>> = vec![];
   for t in req.get("threads").and_then(|x| x.as_array()).unwrap_or(&empty) {
     let mut steps = vec![];
@@ -336,5 +338,6 @@ pub fn op_threads(state: &mut State, req: &J) -> J {
     }
   }
   let after: Vec<J> = calls.iter().map(|(n, c)| vj(&me.evaluate_invocable(n, c))).collect();
+  let sequential = if cold { after.clone() } else { sequential };
   json!({"sequential": sequential, "concurrent": per_thread, "after": after})
 }
